@@ -10,6 +10,7 @@ CONSTANTS
   NBackoff = 1
   MaxExpire = 2
   MaxRounds = 1
+  SameIsIdentical = TRUE
   Variant = "code"
   Mode = "conn"
   LoginOutcomes <- FreshOnly
